@@ -6,5 +6,7 @@ CONSTANTS
   MinZero = FALSE
   KEdge = 0
   KOut = 0
+  HasRit = FALSE
+  KRit = 0
   Variant = "repaired"
 CHECK_DEADLOCK FALSE
